@@ -32,7 +32,8 @@ fn path_eq(a: impl AsRef<Path>, b: impl AsRef<Path>) -> bool {
 
 #[inline]
 fn os_str_eq(a: impl AsRef<OsStr>, b: impl AsRef<OsStr>) -> bool {
-    a.as_ref() == b.as_ref()
+    // like `Path == OsStr` in std (and like `partial_cmp` below), compare as paths
+    Path::new(a.as_ref()) == Path::new(b.as_ref())
 }
 
 symmetric_eq! {
